@@ -99,6 +99,16 @@ class Ref:
         return hash(self.name)
 
 
+class PyIter:
+    """an iterator over already known items (shared position)"""
+
+    def __init__(self, items):
+        self.items, self.pos = list(items), 0
+
+    def __repr__(self):
+        return 'PyIter(%d/%d)' % (self.pos, len(self.items))
+
+
 class Closure:
     def __init__(self, node, env, self_ref=None, cls=None):
         self.node, self.env, self.self_ref, self.cls = node, env, self_ref, cls
@@ -309,6 +319,12 @@ class Interp:
         h = self.h
         if isinstance(v, (list, tuple)):
             return list(v)
+        if isinstance(v, PyIter):
+            rest = v.items[v.pos:]
+            v.pos = len(v.items)
+            return rest
+        if isinstance(v, str) and getattr(h, 'symbolic_strings', False):
+            return list(v)
         if isinstance(v, (set, frozenset)):
             return sorted(v, key=repr)
         if h.is_list(v):
@@ -418,6 +434,16 @@ class Interp:
             if e.id in ('tuple', 'str', 'int', 'list', 'dict', 'bytes', 'set', 'frozenset') or (e.id[:1].isupper() and e.id not in env):
                 return ('class', e.id)
             raise AnalysisError('heap model: unbound name %s' % e.id)
+        if isinstance(e, ast.Attribute) and isinstance(e.value, ast.Name) and e.value.id == 're' and 're' not in env:
+            from .core import RE_FLAGS
+            if e.attr in RE_FLAGS:
+                return int(RE_FLAGS[e.attr])
+        if isinstance(e, ast.BinOp) and isinstance(e.op, (ast.BitOr, ast.BitAnd)):
+            l, r = self.ev(e.left, env, cls), self.ev(e.right, env, cls)
+            if isinstance(l, int) and isinstance(r, int):
+                return (l | r) if isinstance(e.op, ast.BitOr) else (l & r)
+            if isinstance(l, (set, frozenset)) and isinstance(r, (set, frozenset)):
+                return (l | r) if isinstance(e.op, ast.BitOr) else (l & r)
         if isinstance(e, ast.Attribute):
             base = self.ev(e.value, env, cls)
             if isinstance(base, tuple) and base[0] == 'class':
@@ -525,9 +551,11 @@ class Interp:
             key = self.ev(e.slice, env, cls)
             if isinstance(base, SStr) or (isinstance(base, str) and isinstance(key, (int, slice))):
                 try:
-                    return symstr.lift(base).subscript(key)
+                    r_ = symstr.lift(base).subscript(key)
                 except KeyError:
                     raise Raised('IndexError', h.version, e.lineno)
+                c_ = r_.concrete()
+                return c_ if c_ is not None else r_
             if isinstance(base, Ref) and h.objs[base.name]['__class__'] == 'dict':
                 return h.dict_get(base, key, e.lineno)
             if h.is_list(base) or isinstance(base, (list, tuple)):
@@ -620,6 +648,8 @@ class Interp:
             if isinstance(base0, (set, frozenset)):
                 a2 = [set(self.seq(a)) if not isinstance(a, (str, int)) or fn.attr not in ('add', 'discard') else a for a in args]
                 return getattr(base0, fn.attr)(*a2)
+        if isinstance(fn, ast.Name) and fn.id == 'enumerate' and len(args) == 1 and isinstance(args[0], (str, PyIter)):
+            return [(i, v) for i, v in enumerate(self.seq(args[0]))]
         if isinstance(fn, ast.Name) and fn.id == 'len' and len(args) == 1 and isinstance(args[0], (set, frozenset, dict, str)):
             return len(args[0])
         if isinstance(fn, ast.Name) and fn.id == 'sorted' and len(args) == 1 and not kwargs:
@@ -634,12 +664,33 @@ class Interp:
                     return self.seq(self.call(Closure(rv.node, {}, args[0], rv.cls), []))
             return list(reversed(self.seq(args[0])))
         if isinstance(fn, ast.Name) and fn.id == 'next' and args:
+            if isinstance(args[0], PyIter):
+                itr = args[0]
+                if itr.pos < len(itr.items):
+                    itr.pos += 1
+                    return itr.items[itr.pos - 1]
+                if len(args) > 1:
+                    return args[1]
+                raise Raised('StopIteration', h.version, e.lineno)
             items = self.seq(args[0])
             if items:
                 return items[0]
             if len(args) > 1:
                 return args[1]
             raise Raised('StopIteration', h.version, e.lineno)
+        if isinstance(fn, ast.Name) and fn.id == 'iter' and len(args) == 1 and getattr(h, 'symbolic_strings', False):
+            return args[0] if isinstance(args[0], PyIter) else PyIter(self.seq(args[0]))
+        if norm(fn) in ('io.StringIO', 'StringIO') and not args and getattr(h, 'symbolic_strings', False):
+            return h.alloc('StringIO', {'parts': []})
+        if isinstance(fn, ast.Attribute) and fn.attr in ('write', 'getvalue') and getattr(h, 'symbolic_strings', False):
+            b0 = self.ev(fn.value, env, cls)
+            if isinstance(b0, Ref) and h.objs[b0.name]['__class__'] == 'StringIO':
+                if fn.attr == 'write':
+                    h.objs[b0.name]['parts'].append(args[0])
+                    return None
+                r0 = SStr(h.objs[b0.name]['parts'])
+                c0 = r0.concrete()
+                return c0 if c0 is not None else r0
         if isinstance(fn, ast.Name) and fn.id in ('list', 'tuple', 'iter') and len(args) == 1:
             items = self.seq(args[0])
             return h.new_list(items) if fn.id == 'list' else (tuple(items) if fn.id == 'tuple' else items)
@@ -1017,7 +1068,15 @@ class Interp:
                             raise
                 raise
         if isinstance(st, ast.For):
-            items = self.seq(self.ev(st.iter, env, cls))
+            itv = self.ev(st.iter, env, cls)
+            if isinstance(itv, PyIter):
+                def pull(itv=itv):
+                    while itv.pos < len(itv.items):
+                        itv.pos += 1
+                        yield itv.items[itv.pos - 1]
+                items = pull()
+            else:
+                items = self.seq(itv)
             broke = False
             for v in items:
                 self.assign(st.target, v, env, cls)
